@@ -667,3 +667,7 @@ def run(ctx: Ctx) -> None:
     # execution ends exactly when the simulation is done: step() / run() consult is_done() itself, nothing remembered (C13's rules)
     from .c13 import run_rule
     run_rule(ctx, "R01.run", classes=("RiscvSimulation",))
+    # a load (and the string read of ecall 4) returns what the latest store left, also under a data cache: the cached reads return the
+    # lane of the block the lookup delivered for this access, counted or not (C03's read-source rule)
+    from .c03 import source_rule
+    source_rule(ctx, "R01.src")
